@@ -11,6 +11,8 @@ let rec parse_ops toks = match toks with
   | "termall" :: s :: r -> CTermAll (sched s) :: parse_ops r
   | "msg" :: r -> CMsg :: parse_ops r
   | "py" :: m :: f :: r -> CPy (bytes_of_hex m, bytes_of_hex f) :: parse_ops r
+  | "apush" :: h :: r -> CAPush (bytes_of_hex h) :: parse_ops r
+  | "aterm" :: r -> CATerm :: parse_ops r
   | t :: _ -> failwith ("bad op " ^ t)
 let show_res r = match r with EInt n -> string_of_int (int_of_nat n) | EErr e -> string_of_int (errno e) | EFault -> "F"
 let show_st st buf =
